@@ -197,3 +197,18 @@ func WaitUntil(step time.Duration, limit time.Duration, cond func() bool) bool {
 	}
 	return true
 }
+
+// tapeReader expands the tape's "rand" stream into bytes.
+type tapeReader struct{ t *Tape }
+
+func (r tapeReader) Read(p []byte) (int, error) { r.t.Fill(Rand, p); return len(p), nil }
+
+// DefaultRand is consulted by gotd/td's crypto.DefaultRand (hook inserted by
+// the instrumenter): inside a simulation every "default entropy" read comes
+// from the run's tape; outside it returns nil (real crypto/rand is used).
+func DefaultRand() interface{ Read([]byte) (int, error) } {
+	if s := S; s != nil {
+		return tapeReader{s.Tape}
+	}
+	return nil
+}
